@@ -1,5 +1,5 @@
 (** * C10 -- programs run in order, on the right qubits *)
-From QV Require Import Interp C10T.
+From QV Require Import Interp C10T C10T2.
 
 Theorem C10_numbering : C10_numbering_stmt.
 Proof. exact C10_numbering_proof. Qed.
@@ -8,3 +8,7 @@ Print Assumptions C10_numbering.
 Theorem C10_in_order : C10_in_order_stmt.
 Proof. exact C10_in_order_proof. Qed.
 Print Assumptions C10_in_order.
+
+Theorem C10_macro : C10_macro_stmt.
+Proof. exact C10_macro_proof. Qed.
+Print Assumptions C10_macro.
